@@ -155,6 +155,14 @@ impl Subject for C04 {
         if r == "system-concurrency" || r == "mixed" {
             system::load_rules(vec![Arc::new(system::Rule { id: "sys".into(), metric_type: system::MetricType::Concurrency, threshold: 2.0, ..Default::default() })]);
         }
+        if r == "hotspot-b" || r == "mixed" {
+            // a hotspot QPS rule on b keyed on the first argument (the harness passes none: the
+            // rule must not apply) plus a concurrency rule that never blocks
+            sentinel_core::hotspot::load_rules(vec![
+                Arc::new(sentinel_core::hotspot::Rule { id: "hs".into(), resource: B.into(), metric_type: sentinel_core::hotspot::MetricType::QPS, threshold: 0, duration_in_sec: 1, ..Default::default() }),
+                Arc::new(sentinel_core::hotspot::Rule { id: "hc".into(), resource: A.into(), metric_type: sentinel_core::hotspot::MetricType::Concurrency, threshold: 100, ..Default::default() }),
+            ]);
+        }
         if r == "breaker-open-a" {
             cb::load_rules(vec![Arc::new(cb::Rule { id: "cb".into(), resource: A.into(), strategy: cb::BreakerStrategy::ErrorCount, retry_timeout_ms: 1000, min_request_amount: 1, stat_interval_ms: 1000, threshold: 1.0, ..Default::default() })]);
             // one failing request opens it; it is part of the ledger like any other entry
@@ -222,7 +230,7 @@ impl Subject for C04 {
 pub fn configs(thorough: bool) -> Vec<Cfg> {
     let mut v = vec![];
     let phases: &[u64] = if thorough { &[0, 1, 499] } else { &[0, 499] };
-    for r in ["none", "isolation-a", "flow-b", "breaker-open-a", "system-concurrency", "mixed"] {
+    for r in ["none", "isolation-a", "flow-b", "breaker-open-a", "system-concurrency", "hotspot-b", "mixed"] {
         for ph in phases {
             v.push(Cfg { rules: r.into(), phase: *ph });
         }
